@@ -344,3 +344,18 @@ RULES = [
     ("C06-R3", r3_change_encoding),
     ("C06-R4", r4_shape_plumbing),
 ]
+
+
+def thorough(ctx):
+    """Deeper bound: every printable ASCII character as a one-letter alphabet and every (letter, non-letter) pair around the case-fold boundaries."""
+    ctx.current_rule = "C06-R1-thorough"
+    base = ctx.index.cls(ENC_MOD, "AlphabetEncoding")
+    n = 0
+    for c in range(33, 127):
+        _check_alphabet(ctx, base, chr(c), base.where, "single-character")
+        n += 1
+    for a in "AZMaz":
+        for b in "@[`{09*=+-.~!":
+            _check_alphabet(ctx, base, a + b, base.where, "letter/non-letter pair")
+            n += 1
+    ctx.count("thorough_alphabets", n)
